@@ -68,6 +68,10 @@ func (s *Session) start() {
 		return
 	}
 	s.in = in
+	if tf := os.Getenv("GOVC_TRACE"); tf != "" {
+		f, _ := os.OpenFile(tf, os.O_CREATE|os.O_WRONLY|os.O_APPEND, 0o644)
+		s.in = teeWriter{in, f}
+	}
 	s.out = bufio.NewReaderSize(out, 1<<20)
 	s.dead = false
 	fmt.Fprintf(s.in, "(set-option :global-declarations true)\n(set-option :timeout %d)\n", s.timeout)
@@ -172,14 +176,16 @@ func (s *Session) readLine() (string, bool) {
 }
 
 // CheckNot checks whether `(not goal)` is unsatisfiable on the current stack
-// in the live session. Returns "unsat", "sat", "unknown".
-func (s *Session) CheckNot(goal string) (string, int64) {
+// in the live session. Returns "unsat", "sat", "unknown"; on sat the values
+// of getValues (raw get-value answer) are returned too.
+func (s *Session) CheckNot(goal string, getValues []string) (string, int64, string) {
 	t0 := time.Now()
 	s.nchecks++
 	if s.dead {
-		return "unknown", 0
+		return "unknown", 0, ""
 	}
-	io.WriteString(s.in, "(push 1)\n(assert (not "+goal+"))\n(check-sat)\n(pop 1)\n")
+	io.WriteString(s.in, "(push 1)\n(assert (not "+goal+"))\n(check-sat)\n")
+	res := ""
 	for {
 		l, ok := s.readLine()
 		if !ok {
@@ -188,20 +194,50 @@ func (s *Session) CheckNot(goal string) (string, int64) {
 			s.start()
 			ms := time.Since(t0).Milliseconds()
 			gStats.add("z3-new(live)", ms)
-			return "unknown", ms
+			return "unknown", ms, ""
 		}
 		if l == "unsat" || l == "sat" || l == "unknown" || l == "timeout" {
-			ms := time.Since(t0).Milliseconds()
-			gStats.add("z3-new(live)", ms)
 			if l == "timeout" {
 				l = "unknown"
 			}
-			return l, ms
+			res = l
+			break
 		}
 		if strings.HasPrefix(l, "(error") {
 			fmt.Fprintf(os.Stderr, "SMT ERROR (live): %s\n  goal: %.300s\n", l, goal)
 		}
 	}
+	model := ""
+	if res == "sat" && len(getValues) > 0 {
+		io.WriteString(s.in, "(get-value ("+strings.Join(getValues, " ")+"))\n")
+		depth, started := 0, false
+		for {
+			l, ok := s.readLine()
+			if !ok {
+				s.Close()
+				s.start()
+				ms := time.Since(t0).Milliseconds()
+				gStats.add("z3-new(live)", ms)
+				return res, ms, model
+			}
+			model += l + "\n"
+			for _, c := range l {
+				if c == '(' {
+					depth++
+					started = true
+				} else if c == ')' {
+					depth--
+				}
+			}
+			if strings.HasPrefix(l, "(error") || (started && depth <= 0) {
+				break
+			}
+		}
+	}
+	io.WriteString(s.in, "(pop 1)\n")
+	ms := time.Since(t0).Milliseconds()
+	gStats.add("z3-new(live)", ms)
+	return res, ms, model
 }
 
 // CheckSat checks satisfiability of the current stack (used for cover /
@@ -462,3 +498,11 @@ func smtSym(s string) string {
 	s = strings.ReplaceAll(s, "\\", "!")
 	return "|" + s + "|"
 }
+
+type teeWriter struct {
+	w io.WriteCloser
+	f *os.File
+}
+
+func (t teeWriter) Write(p []byte) (int, error) { t.f.Write(p); return t.w.Write(p) }
+func (t teeWriter) Close() error                { t.f.Close(); return t.w.Close() }
